@@ -521,7 +521,8 @@ class Conf:
         return self.pickle_type == "json"
 
     def name(self) -> str:
-        return f"{self.pickle_type or 'omitted'}/{'secret' if self.secret else 'nosecret'}/{self.digest}/{self.via}"
+        sec = "secret" if self.secret else ("nosecret" if self.secret is None else "emptysecret")
+        return f"{self.pickle_type or 'omitted'}/{sec}/{self.digest}/{self.via}"
 
     def setup(self):
         cache = Cache()
@@ -557,7 +558,9 @@ class Conf:
 
     def fields(self, reg: str | None = None) -> str:
         # the configured secret is its text: `s:` a str (settings url, str keyword), `b:` the bytes of that text
-        sec = ("b:" if self.via == "kw" else "s:") + self.secret.encode().hex() if self.secret else "-"
+        # an EMPTY secret ("" / b"") is sent as what it is (`s:` / `b:` with no bytes): that it means "no secret" is the model's
+        # statement (Serial.signerOf), not the harness'
+        sec = ("b:" if self.via == "kw" else "s:") + self.secret.encode().hex() if self.secret is not None else "-"
         return f"sec={sec} dig={self.digest} pk={self.pk} reg={REG_FIELD() if reg is None else reg}"
 
     def probe(self) -> str:
@@ -609,6 +612,12 @@ def all_confs() -> list[Conf]:
     out.append(Conf(None, None, "md5", "kw"))
     out.append(Conf("default", "é∑", "md5"))
     out.append(Conf("json", "a_b:c", "sum"))
+    # the EMPTY secret (`secret=os.environ.get("CACHE_SECRET", "")`): as str keyword, as bytes keyword and in the settings url
+    # (`mem://?secret=&digestmod=...`: a blank option is no option), with and without an explicit pickle_type, every digest:
+    # it is "no secret" - values round-trip unsigned, the NonPickler stays unless a real pickler was asked for
+    for i, pt in enumerate((None, "null", "default", "json")):
+        for j, via in enumerate(("kwstr", "kw", "url")):
+            out.append(Conf(pt, "", DIGESTS[(i + j) % len(DIGESTS)], via))
     return out
 
 
